@@ -2,6 +2,7 @@
 from __future__ import annotations
 
 import copy
+from collections import OrderedDict
 import json
 import re
 from pathlib import Path
@@ -10,8 +11,13 @@ from harness import core
 from harness.gen import ir as G
 from harness.impl import docir
 
-MODULE = "CddVerif.Properties.C01"
-THEOREMS = [
+MODULE = "CddVerif.Properties.C01Whole"  # imports Properties.C01 (value-level theorems) through Proofs/DocRoundTrip*.lean
+WHOLE = ["rest_roundtrip_full", "rest_roundtrip_names", "rest_roundtrip_docs", "rest_roundtrip_docs_same", "rest_roundtrip_defaults", "rest_roundtrip_types",
+         "rest_roundtrip_types_same", "rest_roundtrip_header", "rest_roundtrip_returns", "rest_roundtrip_exact", "C01_full_false",
+         "dup_names_needed", "return_type_name_needed", "optional_doc_needed", "optional_suffix_needed", "compat_needed", "announce_needed",
+         "paren_announce_needed", "defaults_word_needed", "trailing_blank_needed", "header_blank_needed", "two_line_doc_needed", "token_in_doc_needed",
+         "colon_in_name_needed", "kwargs_name_needed", "docless_needed", "type_shape_needed"]
+THEOREMS = ["C01Whole." + t for t in WHOLE] + [
     "C01.extract_nat_roundtrip", "C01.extract_neg_roundtrip", "C01.extract_bool_roundtrip", "C01.setDefaultDoc_int",
     "C01.setDefaultDoc_extract_int", "C01.emit_no_default_when_stripped", "C01.quote_unquote", "C01.unquote_quote_idem",
     "C01.locate_emitted", "C01.hasParenAnnounce_false", "C01.extract_str_roundtrip", "C01.quote_good", "C01.parse_quoted_text", "C01.extract_float_roundtrip", "C01.parse_float_text", "C01.takeDefault_float",
@@ -157,10 +163,112 @@ def classify_typ(t):
     return "dotted" if "." in t else "other"
 
 
+# --------------------------------------------------------------------------------------------------------------
+# the whole-docstring theorem (Properties/C01Whole.lean) against the real code
+# --------------------------------------------------------------------------------------------------------------
+W_WORDS = ["alpha", "size", "of", "the", "batch", "used", "here", "(see", "notes)", "step:", "two", "passes", "over", "data", "kept", "as", "is", "x", "weight", "for",
+           "each", "layer", "ratio", "a/b", "first", "axis", "mode", "flag", "seed", "scale", "mean", "tolerance,", "path", "prefix."]
+W_TYPES = [None, "int", "float", "bool", "str", "np.ndarray", "Optional[int]", "List[int]", "Dict[str, int]", "Callable[[int], int]", "Tuple[int, ...]", "tf.data.Dataset"]
+W_NAMES = ["a", "b", "lr", "batch_size", "x1", "K", "n_items", "as_numpy", "verbose", "seed", "data_loader_fn", "_private"]
+
+
+def gen_whole(r):
+    """interfaces aimed at C01Whole.InDomain (the driver decides membership; this only has to hit it often)"""
+    def desc():
+        d = " ".join(r.choice(W_WORDS) for _ in range(r.randint(1, 7)))
+        return d.strip()
+
+    def entry(ret=False):
+        p = {"doc": desc()}
+        t = r.choice(W_TYPES)
+        if t:
+            p["typ"] = t
+        k = r.random()
+        if k < 0.5:
+            base = (t or "").replace("Optional[", "").rstrip("]") if t in ("int", "float", "bool", "Optional[int]") else None
+            if t is None or base is None and t not in ("str",):
+                p["default"] = r.choice([r.randint(-50, 500), r.random() < 0.5, float(r.choice(["0.5", "2.25", "10.0", "0.001"]))])
+            elif base == "int":
+                p["default"] = r.randint(-50, 500)
+            elif base == "float":
+                p["default"] = float(r.choice(["0.5", "2.25", "10.0", "0.001"]))
+            elif base == "bool":
+                p["default"] = r.random() < 0.5
+        return p
+
+    names = r.sample(W_NAMES, r.randint(0, 5))
+    header = r.choice(["", "Summary line.", "Summary line.\n\nSecond paragraph: with a colon (and parentheses).", "One\nTwo\nThree"])
+    ir = {"name": "F", "doc": header, "type": "static", "params": OrderedDict((n, entry()) for n in names), "returns": None}
+    if r.random() < 0.5:
+        rt = entry(True)
+        ir["returns"] = OrderedDict([("return_type", rt)])
+    return ir
+
+
+def impl_whole(case):
+    import cdd.class_.parse  # noqa: F401
+    import cdd.docstring.emit as E
+    import cdd.docstring.parse as P
+    from cdd.docstring.utils.parse_utils import parse_adhoc_doc_for_typ
+
+    ir, et, ww, edd = case
+    # the model does not run the prose type inference (parse_adhoc_doc_for_typ): such descriptions are outside the tie
+    for n, p in list(ir["params"].items()) + (list(ir["returns"].items()) if ir.get("returns") else []):
+        for none_like in (False, True):
+            try:
+                if parse_adhoc_doc_for_typ(p.get("doc", ""), name=n, default_is_none=none_like) is not None:
+                    return {"trigger": True}
+            except Exception:  # noqa
+                return {"trigger": True}
+    try:
+        ds = E.docstring(copy.deepcopy(ir), docstring_format="rest", emit_types=et, word_wrap=ww, emit_default_doc=edd)
+        return {"ds": ds, "view": docir.ir_view(P.docstring(ds, emit_default_doc=edd))}
+    except Exception as e:  # noqa
+        return {"raises": core.exc_name(e)}
+
+
+def whole_stream(chk, rng, have):
+    n = 1500 if chk.quick else 20000
+    cases = [(gen_whole(rng), rng.random() < 0.7, rng.random() < 0.5, rng.random() < 0.6) for _ in range(n)]
+    real = core.guarded_map(impl_whole, cases, 15.0)
+    if not have:
+        return
+    wm = core.model_batch([{"op": "c01.whole", "ir": docir.ir_to_model(ir), "emit_types": et, "edd": edd} for ir, et, ww, edd in cases])
+    em = core.model_batch([{"op": "c01.emit", "ir": docir.ir_to_model(ir), "style": "rest", "emit_types": et, "word_wrap": ww, "edd": edd} for ir, et, ww, edd in cases])
+    n_in = n_dis = n_trig = n_emit_out = 0
+    shapes = {}
+    for (ir, et, ww, edd), r, w, e in zip(cases, real, wm, em):
+        if not isinstance(r, dict) or r.get("timeout") or r.get("skipped"):
+            continue
+        if r.get("trigger"):
+            n_trig += 1
+            continue
+        if not w.get("indomain"):
+            continue
+        if "outside" in e:  # hypothesis `emit … = .ok s` of the theorem is not met (textwrap would re-flow a line)
+            n_emit_out += 1
+            continue
+        n_in += 1
+        k = "params=%d ret=%s et=%s edd=%s" % (len(ir["params"]), bool(ir.get("returns")), et, edd)
+        shapes[k] = shapes.get(k, 0) + 1
+        chk.count(("whole", json.dumps(docir.ir_to_model(ir), sort_keys=True), et, ww, edd), len(ir["params"]) >= 2)
+        if r.get("view") != w["exp"] or r.get("ds") != e.get("r"):
+            n_dis += 1
+            chk.disagreement("C01 whole-docstring theorem: real parse(emit ir) = expIR ir on InDomain", {"ir": docir.ir_to_model(ir), "emit_types": et, "word_wrap": ww, "edd": edd},
+                             {"view": r.get("view"), "raises": r.get("raises"), "ds": r.get("ds")}, {"exp": w["exp"], "ds": e.get("r")})
+    chk.coverage["whole_theorem_tie"] = {"generated": n, "in_domain_and_compared": n_in, "trigger_word_descriptions_excluded": n_trig, "model_emit_outside": n_emit_out,
+                                         "shapes": dict(sorted(shapes.items(), key=lambda kv: -kv[1])[:12])}
+    chk.oblige("correspondence: on C01Whole.InDomain (decided by the driver) the REAL cdd.docstring.parse.docstring(cdd.docstring.emit.docstring(ir)) equals the interface "
+               "predicted by rest_roundtrip_full (expIR), and the real docstring equals Doc.emit's, on %d in-domain interfaces (of %d generated; %d excluded: prose type-inference triggers)"
+               % (n_in, n, n_trig), "correspondence", n_dis == 0 and n_in > n // 10, "%d disagreements, %d in domain" % (n_dis, n_in))
+
+
 def run(chk: core.Check) -> int:
     chk.lean(MODULE, THEOREMS)
     chk.trusted_base += [
         "model lean/CddVerif/Model/Doc.lean: character-level port of the docstring emitter (3 styles, indent_level 0), of extract_default/_parse_out_default_and_doc, and a line-oriented ReST reference parser with ports of interpolate_defaults/_set_name_and_type; tied by byte comparison of emitted docstrings and comparison of parsed views",
+        "Properties/C01Whole.lean proves parseRest (emit ir) = expIR ir on the decidable domain InDomain for the MODEL; the model omits the prose type inference "
+        "(parse_adhoc_doc_for_typ), so against the real code the theorem is claimed only for descriptions on which that function returns None (checked per case by calling it)",
         "assumed, not modelled: textwrap.fill (identity on the accepted lines, model abstains otherwise), ast.literal_eval/float()/repr beyond decimal ints, simple decimals, booleans and quoted strings; the real character-stack scanners of the three styles are tied by correspondence only; Google/NumPy parsing is exercised on the real code only",
     ]
     rng = chk.rng
@@ -211,6 +319,8 @@ def run(chk: core.Check) -> int:
             chk.disagreement("C01 correspondence: ReST parse view", {"text": real[k]["ds"], "edd": cases[k][5]}, real[k]["view"], m.get("ir"))
     chk.oblige("correspondence: Doc.parseRest = cdd.docstring.parse.docstring (view) on %d emitted ReST docstrings (%d outside the model)" % (len(preqs), n_pout),
                "correspondence", n_dis == 0 and have, "%d disagreements" % n_dis)
+    # ---- the whole-docstring theorem's prediction against the real code --------------------------------------------
+    whole_stream(chk, rng, have)
     # ---- value level: extract_default on description lines ------------------------------------------------------
     lines = []
     vals = ["5", "-3", "0", "42", "3.14", "-2.5", "0.001", "True", "False", '"foo"', "'a b'", "mnist", "```(None)```", "```np.zeros(3)```", "1e5", "None", "10.", "-7"]
